@@ -750,6 +750,29 @@ impl WorldA {
                     let p = if self.conns[i].tainted || self.conns[i].hostile { "C06" } else { "C09" };
                     obs.violate(p, "receive-accounting-above-max", kind_name(c.cfg.kind), format!("conn {} side {} ch {} used {} max {}", i, side, c.cfg.id, used, max));
                 }
+                // C09: what is accounted is explained by the ledger: every complete, not yet obtained message counts with its
+                // length; a partially arrived sliced message counts with at most slices * 1200; nothing else counts
+                if c.reliable() && !self.conns[i].tainted && !self.conns[i].hostile && ep.disconnect_reason().is_none() {
+                    obs.count("oracle.C09.recv_accounting_explained");
+                    let mut lo = 0usize;
+                    let mut hi = 0usize;
+                    for m in c.msgs.iter().filter(|m| m.obtained == 0) {
+                        if m.fully_handed() {
+                            lo += m.bytes.len();
+                            hi += m.bytes.len();
+                        } else if m.nsl > 0 && m.handed.iter().any(|h| *h > 0) {
+                            hi += m.nsl * SLICE;
+                        }
+                    }
+                    if used < lo || used > hi {
+                        obs.violate(
+                            "C09",
+                            if used > hi { "receive-memory-accounts-more-than-is-buffered" } else { "receive-memory-accounts-less-than-is-buffered" },
+                            kind_name(c.cfg.kind),
+                            format!("conn {} side {} ch {}: accounted {} but the ledger explains between {} and {}", i, side, c.cfg.id, used, lo, hi),
+                        );
+                    }
+                }
             }
         }
     }
